@@ -125,8 +125,24 @@ def run_case(case: Dict[str, Any]) -> Outcome:
         clock.FakeDT.cur = clock.from_us(n)
         clock.FakeDT.source = None
         got = R.get_task_delay(task)
+        # the SAME schedule object gets another time (a source that keeps its schedules and re-times them, model_copy(update=...)) and is
+        # evaluated again: the answer is the one a freshly built schedule with that time gets
+        T2 = T + dtm.timedelta(days=1) if (n + delta) % 2 == 0 else T - dtm.timedelta(hours=2)
+        again: Any = "n/a"
+        fresh: Any = "n/a"
+        try:
+            moved = task.model_copy(update={"time": T2}) if (n // 7) % 2 == 0 else task
+            if moved is task:
+                task.time = T2
+            again = R.get_task_delay(moved)
+            fresh = R.get_task_delay(ScheduledTask(task_name="t", labels={}, args=[], kwargs={}, time=T2, cron_offset=co))
+        except Exception as e:  # noqa: BLE001
+            again = f"raised {type(e).__name__}: {e}"
     finally:
         clock.uninstall()
+    if again != fresh or type(again) is not type(fresh):
+        out.add("C14.c", f"now={clock.from_us(n).isoformat()}: a schedule evaluated once with T={T.isoformat()} and then given T={T2.isoformat()} gets delay={again!r}; "
+                         f"a fresh schedule with that time gets {fresh!r}")
     nb = (n // MIN + 1) * MIN
     horizon = nb + SEC
     desc = f"now={clock.from_us(n).isoformat()} T={T.isoformat()} (T-now={delta} us, horizon-now={horizon - n} us)" + (f" cron_offset={co!r}" if co is not None else "")
